@@ -227,9 +227,11 @@ Lemma wf_rq_rlay_parts y : wf_rq_rlay y = true ->
   forallb (fun ne => wf_rq_noise (fst ne)) (rl_before y) = true /\ all_blank (rl_lead y) = true /\
   all_blank (rl_ws1 y) = true /\ all_blank (rl_ws2 y) = true /\ all_blank (rl_trail y) = true.
 Proof.
-  unfold wf_rq_rlay. intros H. apply andb_true_iff in H as [H H5]. apply andb_true_iff in H as [H H4].
+  unfold wf_rq_rlay. intros H. apply andb_true_iff in H as [H _]. apply andb_true_iff in H as [H H5]. apply andb_true_iff in H as [H H4].
   apply andb_true_iff in H as [H H3]. apply andb_true_iff in H as [H1 H2]. auto.
 Qed.
+Lemma wf_rq_rlay_cont y e ws : wf_rq_rlay y = true -> rl_cont y = Some (e, ws) -> all_blank ws = true.
+Proof. unfold wf_rq_rlay. intros H E. apply andb_true_iff in H as [_ H]. now rewrite E in H. Qed.
 
 Lemma blank_safe l : forallb blank_byte l = true -> forallb safe l = true.
 Proof. apply forallb_imp. intros c H. unfold safe. now rewrite H, !orb_true_r. Qed.
@@ -305,6 +307,61 @@ Proof.
   rewrite has_env_nodollar by (apply safe_no_byte; [cbn; tauto|exact Hs]).
   rewrite ends_bslash_none by (apply safe_no_byte; [cbn; tauto|exact Hs]).
   now rewrite rq_line_logical.
+Qed.
+
+(* a requirement continued with a backslash after the "==" *)
+Definition with_ws2 (y : rq_rlay) (ws : bytes) : rq_rlay :=
+  {| rl_before := rl_before y; rl_lead := rl_lead y; rl_ws1 := rl_ws1 y; rl_ws2 := rl_ws2 y ++ ws; rl_trail := rl_trail y;
+     rl_eol := rl_eol y; rl_cont := None |}.
+
+Lemma ends_bslash_snoc a : ends_with_bslash (a ++ [BSLASH]) = true.
+Proof. induction a as [|c a IH]; [reflexivity|]. cbn [app ends_with_bslash]. destruct (a ++ [BSLASH]) eqn:E; [destruct a; discriminate|exact IH]. Qed.
+Lemma drop_last_snoc a x : drop_last (a ++ [x]) = a.
+Proof. induction a as [|c a IH]; [reflexivity|]. cbn [app drop_last]. destruct (a ++ [x]) eqn:E; [destruct a; discriminate|]. now rewrite IH. Qed.
+
+Lemma rq_head_safe r y : wf_rq_rec r = true -> wf_rq_rlay y = true -> forallb safe (rq_head r y) = true.
+Proof.
+  intros Hr Hy. apply wf_rq_rec_parts in Hr as (N & _ & _). apply wf_rq_rlay_parts in Hy as (_ & L & W1 & W2 & _).
+  unfold rq_head, all_blank in *. rewrite !forallb_app. rewrite (blank_safe _ L), (blank_safe _ W1), (blank_safe _ W2).
+  assert (forallb safe (rq_name r) = true) as -> by (apply (forallb_imp name_byte); [intros c H; unfold safe; now rewrite H|exact N]).
+  reflexivity.
+Qed.
+
+Lemma rq_phys_step r y rest tl :
+  wf_rq_rec r = true -> wf_rq_rlay y = true -> valid_pkg (rq_name r) = true ->
+  req_lines (map fst (rq_phys_lines r y) ++ rest) tl None = cons_out [(rq_name r, rq_version r)] (req_lines rest tl None).
+Proof.
+  intros Hr Hy Hv. unfold rq_phys_lines. destruct (rl_cont y) as [[e ws]|] eqn:Ec.
+  - pose proof (wf_rq_rlay_cont y e ws Hy Ec) as Hw. pose proof (rq_head_safe r y Hr Hy) as Hh.
+    assert (wf_rq_rlay (with_ws2 y ws) = true) as Hy'.
+    { pose proof Hy as Hy0. apply wf_rq_rlay_parts in Hy0 as (B & L & W1 & W2 & T). unfold wf_rq_rlay, with_ws2. cbn.
+      unfold all_blank in *. rewrite B, L, W1, T, forallb_app, W2, Hw. reflexivity. }
+    assert (rq_head r y ++ ws ++ rq_version r ++ rl_trail y = rq_line r (with_ws2 y ws)) as El
+      by (unfold rq_head, rq_line, with_ws2; cbn; now rewrite <- !app_assoc).
+    pose proof (rq_line_safe r (with_ws2 y ws) Hr Hy') as Hs. rewrite <- El in Hs.
+    assert (forallb safe (ws ++ rq_version r ++ rl_trail y) = true) as Hs2 by (rewrite forallb_app in Hs; now apply andb_true_iff in Hs as [_ Hs]).
+    cbn [map fst app req_lines]. unfold remove_comments.
+    rewrite rm_comment_nohash by (rewrite contains_byte_app, (safe_no_byte HASH _ (or_introl eq_refl) Hh); reflexivity). cbn [rev app].
+    rewrite has_env_nodollar by (rewrite contains_byte_app; rewrite safe_no_byte; [reflexivity|cbn; tauto|exact Hh]).
+    rewrite ends_bslash_snoc, drop_last_snoc. cbn [app].
+    rewrite rm_comment_nohash by (apply safe_no_byte; [cbn; tauto|exact Hs2]). cbn [rev app].
+    rewrite has_env_nodollar by (apply safe_no_byte; [cbn; tauto|exact Hs2]).
+    rewrite ends_bslash_none by (apply safe_no_byte; [cbn; tauto|exact Hs2]).
+    rewrite El. now rewrite rq_line_logical.
+  - cbn [map fst app]. now apply rq_record_step.
+Qed.
+
+Lemma rq_phys_text r y : wf_rq_rec r = true -> wf_rq_rlay y = true ->
+  forallb (fun le => forallb text_byte (fst le)) (rq_phys_lines r y) = true.
+Proof.
+  intros Hr Hy. unfold rq_phys_lines. destruct (rl_cont y) as [[e ws]|] eqn:Ec.
+  - pose proof (wf_rq_rlay_cont y e ws Hy Ec) as Hw. pose proof (rq_head_safe r y Hr Hy) as Hh.
+    pose proof Hr as Hr0. apply wf_rq_rec_parts in Hr0 as (_ & _ & V). pose proof Hy as Hy0. apply wf_rq_rlay_parts in Hy0 as (_ & _ & _ & _ & T).
+    cbn [forallb fst]. rewrite !forallb_app. rewrite (forallb_imp safe text_byte _ safe_text Hh). cbn [forallb].
+    unfold all_blank in *. rewrite (blank_text _ Hw), (blank_text _ T).
+    assert (forallb text_byte (rq_version r) = true) as ->; [|reflexivity].
+    apply (forallb_imp ver_byte); [|exact V]. intros c H. apply safe_text. unfold safe. now rewrite H, orb_true_r.
+  - cbn [forallb fst]. now rewrite (forallb_imp safe text_byte _ safe_text (rq_line_safe r y Hr Hy)).
 Qed.
 
 (* ------------------------------------------------------------------ lines without a requirement *)
@@ -397,8 +454,8 @@ Proof.
   - cbn [wf_rq_records forallb] in Hr. apply andb_true_iff in Hr as [Hr Hrs].
     destruct (hd_tl_rq ys Hy) as [Hh Ht]. cbn [forallb] in Hd. apply andb_true_iff in Hd as [Hd1 Hd3].
     pose proof (wf_rq_rlay_parts _ Hh) as (B & _).
-    cbn [rq_recs_lines]. rewrite <- app_assoc, map_app, rq_noise_lines_skip by exact B.
-    cbn [app map fst]. rewrite rq_record_step by assumption.
+    cbn [rq_recs_lines]. rewrite <- !app_assoc, map_app, rq_noise_lines_skip by exact B.
+    rewrite map_app, rq_phys_step by assumption.
     rewrite (IH (tl ys) after Hrs Ht Hd3 Ha). reflexivity.
 Qed.
 
@@ -425,8 +482,7 @@ Proof.
   cbn [wf_rq_records forallb] in Hr. apply andb_true_iff in Hr as [Hr Hrs].
   destruct (hd_tl_rq ys Hy) as [Hh Ht]. pose proof (wf_rq_rlay_parts _ Hh) as (B & _).
   cbn [rq_recs_lines]. rewrite forallb_app. fold (rq_noise_lines (rl_before (hd rq_rlay_default ys))).
-  rewrite rq_noise_lines_text by exact B. cbn [forallb fst andb].
-  rewrite (forallb_imp safe text_byte _ safe_text (rq_line_safe r _ Hr Hh)). now apply IH.
+  rewrite rq_noise_lines_text by exact B. cbn [andb]. rewrite forallb_app, rq_phys_text by assumption. now apply IH.
 Qed.
 
 Lemma requirements_on_D_lemma : forall rs l,
